@@ -100,8 +100,8 @@ func (w *worker) kill() {
 }
 
 // call returns the outcome and whether the worker is still usable
-func (w *worker) call(d *Doc, ms int) (Outcome, bool) {
-	b, _ := json.Marshal(workerIn{D: d, Ms: ms, Analyze: ms == -1})
+func (w *worker) call(d *Doc, ms int, trace int) (Outcome, bool) {
+	b, _ := json.Marshal(workerIn{D: d, Ms: ms, Analyze: ms == -1, Trace: trace})
 	w.in.Write(b)
 	w.in.WriteByte('\n')
 	if err := w.in.Flush(); err != nil {
@@ -203,12 +203,18 @@ func (p *Pool) Analyze(d *Doc) Analysis {
 }
 
 // RunT: ms > 0 overrides the in-process hang timeout (used while shrinking hangs)
-func (p *Pool) RunT(d *Doc, ms int) Outcome {
+func (p *Pool) RunT(d *Doc, ms int) Outcome { return p.run(d, ms, 0) }
+
+// Trace records the first pagination round of a document page by page (at most
+// maxPages pages, watchdog ms)
+func (p *Pool) Trace(d *Doc, maxPages, ms int) Outcome { return p.run(d, ms, maxPages) }
+
+func (p *Pool) run(d *Doc, ms int, trace int) Outcome {
 	w := <-p.idle
 	if w == nil {
 		w = startWorker()
 	}
-	o, ok := w.call(d, ms)
+	o, ok := w.call(d, ms, trace)
 	if !ok {
 		w.kill()
 		w = nil
